@@ -472,6 +472,63 @@ pub fn cli_unit(ctx: &Ctx, rng: &mut Rng, o: &mut Out) {
       }
     }
   }
+  // two rules scanned together: one restricted to paths, one of ANOTHER language without restriction —
+  // which files the walk visits is decided from all rules; every selected file of either language is
+  // searched with the rules of its language
+  for (ri, ui) in [(0usize, 2usize), (2, 0), (4, 1), (1, 5)] {
+    let (rl, rrule) = scan_rules[ri];
+    let (ul, urule) = scan_rules[ui];
+    let (Some(rcfg), Some(ucfg)) = (
+      load_config(&json!({"rule": serde_json::from_str::<Value>(rrule).unwrap()}), "restricted", rl, false),
+      load_config(&json!({"rule": serde_json::from_str::<Value>(urule).unwrap()}), "unrestricted", ul, false),
+    ) else { continue };
+    for (extra, selected) in &conditions[1..] {
+      let mut lib: Vec<(String, usize, usize, String)> = vec![];
+      for (rel, flang, text) in scan_files {
+        let host = flang.ast_grep(text);
+        let mut docs = vec![host.inner.clone()];
+        docs.extend(host.inner.get_injections(|s| s.parse::<SupportLang>().ok()));
+        for d in &docs {
+          if *d.lang() == rl && selected(rel) {
+            lib.extend(d.root().find_all(&rcfg.matcher).map(|m| (rel.to_string(), m.range().start, m.range().end, "restricted".to_string())));
+          }
+          if *d.lang() == ul {
+            lib.extend(d.root().find_all(&ucfg.matcher).map(|m| (rel.to_string(), m.range().start, m.range().end, "unrestricted".to_string())));
+          }
+        }
+      }
+      lib.sort();
+      let yaml = format!("id: restricted\nlanguage: {}\n{}rule: {}\n---\nid: unrestricted\nlanguage: {}\nrule: {}\n", lang_name(rl), extra, rrule, lang_name(ul), urule);
+      std::fs::write(sdir.path().join("pair.yml"), &yaml).unwrap();
+      let out = Command::new("timeout")
+        .arg("30")
+        .arg(&exe)
+        .args(["scan", "-r", "pair.yml", "--json=stream", "web"])
+        .current_dir(sdir.path())
+        .stdin(Stdio::null())
+        .stderr(Stdio::null())
+        .output();
+      scan_cases += 1;
+      let cli: Option<Vec<(String, usize, usize, String)>> = out.ok().filter(|o| matches!(o.status.code(), Some(0) | Some(1))).map(|o| {
+        let mut v: Vec<(String, usize, usize, String)> = String::from_utf8_lossy(&o.stdout)
+          .lines()
+          .filter(|l| !l.trim().is_empty())
+          .filter_map(|l| serde_json::from_str::<Value>(l).ok())
+          .map(|v| (v["file"].as_str().unwrap_or("").to_string(), v["range"]["byteOffset"]["start"].as_u64().unwrap_or(0) as usize, v["range"]["byteOffset"]["end"].as_u64().unwrap_or(0) as usize, v["ruleId"].as_str().unwrap_or("").to_string()))
+          .collect();
+        v.sort();
+        v
+      });
+      if cli.as_ref() != Some(&lib) {
+        o.oracle(
+          "cli-scan",
+          false,
+          json!({"fp": format!("cli-scan differs from library search: a path-conditioned {} rule next to an unrestricted {} rule", lang_name(rl), lang_name(ul)),
+                 "rules": yaml, "cli": cli, "lib": lib}),
+        );
+      }
+    }
+  }
   o.oracle("cli-scan", true, json!({"cases": scan_cases}));
   o.oracle("cli-run-done", true, json!({"cases": cases}));
 }
